@@ -29,10 +29,11 @@ func (e *Engine) installIntrinsics(pkgPath string) {
 	}
 	e.intercept[p+"vrfStr"] = func(e *Engine, fr *Frame, c *Ctx, a []Value, _ *ssa.CallCommon) (Value, bool) {
 		name := concreteStr(a[0])
+		n := int(a[1].(IntV).T.val)
 		if s, ok := e.strVars[name]; ok {
+			c.S.PC = And(c.S.PC, mk(&Term{op: OUle, args: []*Term{s.Len, BV(64, uint64(n))}}))
 			return s, true
 		}
-		n := int(a[1].(IntV).T.val)
 		ln := Var("s!"+name+"!len", 64)
 		ln.hasIv, ln.lo, ln.hi = true, 0, uint64(n)
 		c.S.PC = And(c.S.PC, mk(&Term{op: OUle, args: []*Term{ln, BV(64, uint64(n))}}))
@@ -320,38 +321,69 @@ func (e *Engine) deepEqual(c *Ctx, a, b Value, seen map[[2]int]bool) *Term {
 	panic(fmt.Sprintf("deepEqual %T", a))
 }
 
+// mapLive: per log entry, the condition under which it is the live binding of its key (cached per immutable Obj).
+func (e *Engine) mapLive(o *Obj) []*Term {
+	if e.liveCache == nil {
+		e.liveCache = map[*Obj][]*Term{}
+	}
+	if l, ok := e.liveCache[o]; ok {
+		return l
+	}
+	log := o.Log
+	out := make([]*Term, len(log))
+	for i, en := range log {
+		if en.Tomb || en.G.IsFalse() {
+			out[i] = TFalse
+			continue
+		}
+		conj := []*Term{en.G}
+		dead := false
+		for j := i + 1; j < len(log); j++ {
+			if log[j].G.IsFalse() {
+				continue
+			}
+			same := eqV(en.K, log[j].K)
+			if same.IsFalse() {
+				continue
+			}
+			over := And(log[j].G, same)
+			if over.IsTrue() {
+				dead = true
+				break
+			}
+			conj = append(conj, Not(over))
+		}
+		if dead {
+			out[i] = TFalse
+		} else {
+			out[i] = And(conj...)
+		}
+	}
+	e.liveCache[o] = out
+	return out
+}
+
 // every live entry of map a is present in b with a deep-equal value
 func (e *Engine) mapSubset(c *Ctx, a, b int, seen map[[2]int]bool) *Term {
-	log := c.S.Heap[a].Log
+	oa, ob := c.S.Heap[a], c.S.Heap[b]
+	la, lb := e.mapLive(oa), e.mapLive(ob)
 	var conj []*Term
-	for i, en := range log {
-		if en.Tomb {
+	for i, en := range oa.Log {
+		if la[i].IsFalse() {
 			continue
 		}
-		live := en.G
-		for j := i + 1; j < len(log); j++ {
-			live = And(live, Not(And(log[j].G, eqV(en.K, log[j].K))))
-		}
-		if live.IsFalse() {
-			continue
-		}
-		// lookup in b
-		var found *Term = TFalse
-		blog := c.S.Heap[b].Log
-		for bi, be := range blog {
-			if be.Tomb {
+		var disj []*Term
+		for bi, be := range ob.Log {
+			if lb[bi].IsFalse() {
 				continue
 			}
-			bl := And(be.G, eqV(en.K, be.K))
-			for j := bi + 1; j < len(blog); j++ {
-				bl = And(bl, Not(And(blog[j].G, eqV(be.K, blog[j].K))))
-			}
-			if bl.IsFalse() {
+			same := eqV(en.K, be.K)
+			if same.IsFalse() {
 				continue
 			}
-			found = Or(found, And(bl, e.deepEqual(c, en.V, be.V, seen)))
+			disj = append(disj, And(lb[bi], same, e.deepEqual(c, en.V, be.V, seen)))
 		}
-		conj = append(conj, Or(Not(live), found))
+		conj = append(conj, Or(Not(la[i]), Or(disj...)))
 	}
 	return And(conj...)
 }
